@@ -166,5 +166,15 @@ CHECKS["C29"] = _sem("Histories on a prepared ClauseDB: extend() (also nested), 
                      "equality with preparing the union from scratch and that ancestors are unchanged.",
                      "DESIGN.md §5 C29", technique="API-call histories on the real ClauseDB judged by the TLA+ Semantics oracle (TLC)")
 
+CHECKS["C13"] = dict(
+    category="exploration",
+    text="(a) Generated non-recursive Prolog programs (facts with constants, integers, compounds and variables; rules with "
+         "conjunction, disjunction, negation, =/2; findall/3 wrappers): the answers of the real engine are judged by TLC "
+         "against the SLD interpreter of spec/SLD.tla - answer set for top-level queries, order and duplicates for findall "
+         "lists. (b) Probability-free recursive programs (tabling) are judged by Semantics.tla: reported with probability 1 "
+         "iff in the least model.",
+    design_ref="DESIGN.md §5 C13", note=_TERM_NOTE + " " + SEM_NOTE,
+    technique="TLA+ SLD interpreter (SLD.tla) and least-model semantics (Semantics.tla) evaluated by TLC on recorded answers")
+
 NOT_YET = "check not built yet in this round (planned in DESIGN.md §5); not claimed"
 NOT_APPLICABLE = {}
